@@ -145,11 +145,29 @@ EXTRA3 = {
 }
 for _k, _v in EXTRA3.items():
     CLAIMED[_k]['text'] += _v
-LINT_NOTE = (' Rule <id>.L is a battery of slip patterns scoped to the packages the property is anchored in (swapped arguments, like-for-like copies, mirrored / duplicated statements, dropped options, discarded updates, loop slips, memo keys that do not cover the inputs, identity keys, lossy-key maps, cache-key equality, arm-family copies); each pattern has no unaudited instance on the tree the rules were written against.')
+EXTRA4 = {
+ 'C01': ' R13: a DDL object visitor that passes named=False starts its after_name output with white space (the last object keyword and the next token would fuse otherwise).',
+ 'C04': ' R2/R3 are role-based since round 5 (the reverse index may be skipped under an old-vs-new comparison of the reference sets; the blocking-referrer raise is guarded by a local built from the referrers).',
+ 'C06': ' R4 is decided as path facts over every path to the pointer update since round 5.',
+ 'C09': ' R12: __getstate__/__setstate__/__slots__ of the connection state agree (shipped = restored in the same order, everything else reset to a constant); the public savepoint and migration commands reach their worker on every normal path.',
+ 'C10': ' R5/R6 = C02.R4/R5 (a reference dropped from one of two parents survives through the other; positional base insertions of one step do not disturb each other).',
+ 'C11': ' R13: the ancestors index of the SDL loader has one writer (get_ancestors); R14: a type name checked for existence reaches ctx.refs on every normal path, trace_Function records a TypeDependency for every parameter type and the return type.',
+ 'C12': ' R11: element-wise comparisons of the subtype lists of two different collection types compare the lengths first.',
+ 'C13': ' R10: in_type_args / oparams of _extract_params are stored under an index that comes from the argmap.',
+ 'C14': ' R8: the content-derived id functions consume every parameter without a lossy reduction (any, len, set, lower, slices ...), and so does what is appended to the lists handed to them; class-level containers used as memos are keyed by what the value is computed from.',
+ 'C16': ' R11: a block a request is queued on is never scheduled for dropping by the tick and never marked suppressed by prune_inactive_connections (path facts).',
+ 'C17': ' R9: every worker entry point that takes a state transfer passes __sync__ before any reply.',
+ 'C18': ' R3 also: neither quote_ident returns its argument verbatim when needs_quoting holds for it (path fact).',
+ 'C19': ' R11: every unit ConfigMemory.to_str can print is accepted by its parser pattern and has an arm in __init__; R2 reads scope arms from what _set_value reaches (same-module helpers and tables).',
+ 'C20': ' Adjacency lookups through .get, fetch-or-create aliases and plain dicts of OrderedSets are read as the adjacency they stand for; the visited guard is a path fact.',
+}
+for _k, _v in EXTRA4.items():
+    CLAIMED[_k]['text'] += _v
+LINT_NOTE = (' Rule <id>.L is a battery of slip patterns scoped to the packages the property is anchored in (swapped arguments, like-for-like copies, mirrored / duplicated statements, dropped options, discarded updates, loop slips, memo keys that do not cover the inputs, identity keys, lossy-key maps, cache-key equality, arm-family copies, class-level shared tables, loop-invariant comprehension filters, truthiness tests on int-enum fields with a zero member); each pattern has no unaudited instance on the tree the rules were written against.')
 for _k in CLAIMED:
     CLAIMED[_k]['text'] += LINT_NOTE if _k != 'C10' else ''
 NOTE_ALPHA = (' Before rules run, locals, if/else polarity, comparison operand order and and/or operand order of changed '
-              'modules are aligned with the recorded baseline (sa/alpha.py); logging statements, hoisted temporaries and guard clauses the baseline function did not have are undone as well, so behaviour-preserving restylings do not reach the rules.')
+              'modules are aligned with the recorded baseline (sa/alpha.py); logging statements, hoisted temporaries and guard clauses the baseline function did not have are undone as well, so behaviour-preserving restylings do not reach the rules. Since round 5 functions the baseline tree did not have (extracted helpers, new closures) are inlined back at their statement-position call sites, new row-table loops are unrolled, and an obligation that fails while the function branches on new tests about the very quantities a path fact names, or delegates to a new helper that could not be inlined, is reported as undecided (ANALYSIS-ERROR, exit 2) instead of as a violation.')
 for _k in CLAIMED:
     CLAIMED[_k]['note'] += NOTE_ALPHA
 
